@@ -23,6 +23,18 @@ fn main() {
                 seed = args[i + 1].parse().expect("seed");
                 i += 1;
             }
+            "--replay" => {
+                // runs are deterministic in (property, tier, seed): a replay re-runs the recorded pair and must
+                // report the recorded signature again
+                let v: serde_json::Value = std::fs::read_to_string(&args[i + 1]).ok().and_then(|s| serde_json::from_str(&s).ok()).expect("replay file");
+                seed = v["seed"].as_u64().expect("seed in replay file");
+                tier = if v["tier"].as_str() == Some("thorough") { Tier::Thorough } else { Tier::Quick };
+                eprintln!("replaying {} tier={} seed={seed}; recorded signature: {}", v["property"], tier.name(), v["signature"]);
+                if let Some(c) = v["replay"]["cmd"].as_str() {
+                    eprintln!("sanitizer lane command: {c}");
+                }
+                i += 1;
+            }
             _ => {}
         }
         i += 1;
